@@ -84,6 +84,7 @@ DropStep ==
 FlagStep ==
   /\ Room /\ "flag" \in Acts
   /\ \E h \in Live(S) : \E k \in {"tracked", "untracked", "start", "stop"} :
+       /\ S.nodes[S.hd[h].n].kind # "gradview"      \* fetched gradient arrays stay plain
        /\ S' = IF k \in {"tracked", "untracked"} THEN SetTracked(S, h, k = "tracked") ELSE SetTrk(S, h, k = "start")
        /\ S' # S                                    \* only flag changes that change something
        /\ prog' = Append(prog, [op |-> k, args |-> <<h>>])
@@ -92,22 +93,24 @@ FlagStep ==
 BackwardStep ==
   /\ Room /\ "backward" \in Acts /\ npass < MaxPasses
   /\ \E h \in Live(S) : \E seeded \in BOOLEAN :
-       LET d == HandleT(S, h).d
-           seedOpt == IF seeded THEN Some(T(d, [i \in 1..Prod(d) |-> DInt(SeedVals(d)[i])])) ELSE None IN
-       \* nondeterministic may-store nodes: generate only passes whose effect is determined
-       /\ \A n \in 1..S.hd[h].n : ~MayStore(S, h, RefAdj(S, S.hd[h].n, SeedOf(S, h, seedOpt)), n)
-            \/ "maystore" \in Acts
-       /\ S' = Backward(S, h, seedOpt, {})
-       /\ Clean(S')
-       /\ prog' = Append(prog, IF seeded THEN [op |-> "backward", args |-> <<h>>,
-                                               seed |-> [d |-> d, m |-> SeedVals(d), e |-> Zs(d)]]
-                               ELSE [op |-> "backward", args |-> <<h>>])
+       /\ S.nodes[S.hd[h].n].kind # "gradview"
+       /\ LET d == HandleT(S, h).d
+           seedOpt == IF seeded THEN Some(T(d, [i \in 1..Prod(d) |-> DInt(SeedVals(d)[i])])) ELSE None
+          IN
+          \* nondeterministic may-store nodes: generate only passes whose effect is determined
+          /\ \A n \in 1..S.hd[h].n : ~MayStore(S, h, RefAdj(S, S.hd[h].n, SeedOf(S, h, seedOpt)), n)
+               \/ "maystore" \in Acts
+          /\ S' = Backward(S, h, seedOpt, {})
+          /\ Clean(S')
+          /\ prog' = Append(prog, IF seeded THEN [op |-> "backward", args |-> <<h>>,
+                                                  seed |-> [d |-> d, m |-> SeedVals(d), e |-> Zs(d)]]
+                                  ELSE [op |-> "backward", args |-> <<h>>])
   /\ npass' = npass + 1 /\ UNCHANGED <<nops, nh, done>>
 
 ClearStep ==
   /\ Room /\ "clear" \in Acts
   /\ \E h \in Live(S) : \E how \in {"replace", "mut"} :
-       /\ IsSome(S.grad[S.hd[h].n])
+       /\ IsSome(S.grad[S.hd[h].n]) /\ S.nodes[S.hd[h].n].kind # "gradview"
        /\ S' = ClearGrad(S, h) /\ prog' = Append(prog, [op |-> "clear", args |-> <<h>>, how |-> how])
   /\ UNCHANGED <<nops, npass, nh, done>>
 
